@@ -206,3 +206,88 @@ def pow_int_inputs(seed=0, tier='quick'):
 
 
 GENS['pow_int_inputs'] = pow_int_inputs
+
+
+def _mpf_pool(seed, tier):
+    """a small pool of canonical reals for complex search: specials, small values, values whose
+    mantissa is longer than the precisions used below, powers of two"""
+    rng = random.Random(seed)
+    pool = list(SPECIALS) + list(small_mpfs(8, (-1, 0, 2)))
+    for bc in (5, 11, 12, 54, 60):
+        for m in mant_patterns(bc, rng, 1)[:3]:
+            pool.append(mk(0, m, -bc))
+            pool.append(mk(1, m, 3))
+    return pool
+
+
+_CPRECS = (1, 2, 3, 5, 10, 53)
+
+
+def two_mpc_inputs(seed=0, tier='quick'):
+    pool = _mpf_pool(seed, tier)
+    rng = random.Random(seed + 1)
+    n = 4000 if tier == 'quick' else 40000
+    for _ in range(n):
+        z = (rng.choice(pool), rng.choice(pool))
+        w = (rng.choice(pool), rng.choice(pool))
+        yield dict(z=z, w=w, prec=rng.choice(_CPRECS), rnd=rng.choice(RND5))
+
+
+def mpc_mpf_inputs(seed=0, tier='quick'):
+    pool = _mpf_pool(seed, tier)
+    rng = random.Random(seed + 2)
+    n = 4000 if tier == 'quick' else 40000
+    for _ in range(n):
+        z = (rng.choice(pool), rng.choice(pool))
+        x = rng.choice(pool)
+        yield dict(z=z, x=x, p=x, prec=rng.choice(_CPRECS), rnd=rng.choice(RND5))
+
+
+def mpc_int_inputs(seed=0, tier='quick'):
+    pool = _mpf_pool(seed, tier)
+    rng = random.Random(seed + 3)
+    ns = [0, 1, -1, 2, 3, -3, 5, 7, 10, 255, 257, 1023, 1025, -4097, 2 ** 31 + 1, 2 ** 64 - 1, 10 ** 20 + 7, 3 ** 40]
+    n = 4000 if tier == 'quick' else 40000
+    for _ in range(n):
+        z = (rng.choice(pool), rng.choice(pool))
+        yield dict(z=z, n=rng.choice(ns), prec=rng.choice(_CPRECS), rnd=rng.choice(RND5))
+
+
+def one_mpc_inputs(seed=0, tier='quick'):
+    pool = _mpf_pool(seed, tier)
+    for a in pool:
+        for b in pool:
+            for prec in (1, 3, 10, 53):
+                for rnd in RND5:
+                    yield dict(z=(a, b), prec=prec, rnd=rnd)
+
+
+GENS.update({'two_mpc_inputs': two_mpc_inputs, 'mpc_mpf_inputs': mpc_mpf_inputs, 'mpc_int_inputs': mpc_int_inputs,
+             'one_mpc_inputs': one_mpc_inputs})
+
+
+def frac_inputs(seed=0, tier='quick'):
+    for x in list(SPECIALS) + list(small_mpfs(64, (-7, -3, -1, 0, 2))) + list(interesting_mpfs(seed, tier)):
+        for prec in (0, 1, 2, 3, 5, 10, 53):
+            for rnd in RND5:
+                yield dict(s=x, prec=prec, rnd=rnd)
+
+
+GENS['frac_inputs'] = frac_inputs
+
+
+def mod_inputs(seed=0, tier='quick'):
+    pool = [fzero] + list(small_mpfs(16, (-2, 0, 1, 3)))
+    rng = random.Random(seed + 5)
+    for bc in (11, 54):
+        for m in mant_patterns(bc, rng, 1)[:3]:
+            pool.append(mk(0, m, -bc))
+            pool.append(mk(1, m, -3))
+    for s in pool + list(SPECIALS):
+        for t in pool + list(SPECIALS):
+            for prec in (1, 3, 10, 53):
+                for rnd in RND5:
+                    yield dict(s=s, t=t, prec=prec, rnd=rnd)
+
+
+GENS['mod_inputs'] = mod_inputs
